@@ -897,7 +897,11 @@ def c09(ctx):
     # accepted programs outside the modelled subsets (regex \\w \\W \\b, classes with a trailing dash, odd counts): run, no oracle
     extras = ["find all @/\\w+\\b/", "find all @/\\W/", "find all @/a\\b/", "find all @/[a-]+/", "find all @/[]-a]/", "find all @/a{2,1}/",
               "find all between 2 and 1 'a'", "find all at most 0 'a'", "find all exactly 0 'a' 'b'", "find all @/(a|)+b/", "find all @/\\bab\\b/",
-              "find all caseless @/ab/", "find all not @/a/", "find all @/a/ = x x", "find all maybe @/(a)/ _1"]
+              "find all caseless @/ab/", "find all not @/a/", "find all @/a/ = x x", "find all maybe @/(a)/ _1",
+              # the name of a loop used where a text is expected (it holds a map)
+              "find all at least 1 'a' named lp lp", "replace all at least 1 ('a' = c) named lp with lp '-' c",
+              "set t to transform return lp + match end replace all at least 1 'a' named lp with t",
+              "find all at least 1 (at least 1 'a' named inner 'b') named outer inner"]
     etexts = [[], [97], [97, 98], [98, 97, 32, 97, 98], [97, 45, 93, 97], [32, 97, 97, 98, 10, 97], [95, 49, 97, 32]]
     ecases = [{"id": i + 1, "src": sct, "texts": etexts} for i, sct in enumerate(extras)]
     eexps = [{"id": c["id"], "r": [{"t": t, "ms": [], "firm": False, "undef": False, "noret": False} for t in c["texts"]]} for c in ecases]
@@ -1241,7 +1245,7 @@ def c08(ctx):
                                     "find all @/(?/", "find all @/(?</", "find all @/\\k<n>/", "find all @/\\k<n/", "find all @/\\9/"]]
     lines += [{"text": t} for t in ["find all 'a' --", "find all 'a' --(", "find all 'a' --()", "find all 'a' --()-", "find all 'a' --())", "find all 'a' --()-)",
                                     "find all 'a' ---", "--\nfind all 'a'", "--()-)--find all 'a'", "find all 'a' -", "find all '\\", "find all \"\\",
-                                    "find all 'a' = ", "find all 'a' = x =", "find all between 2 and 1 'a'", "find all at most 0 'a'", "find all exactly 0 'a' 'b'"]]
+                                    "find all 'a' = ", "find all 'a' = x =", "find all 'a' = x 'b' = x", "find all {'a'} = s {'b'} = s", "find all at least 1 'a' named x 'b' = x", "find all between 2 and 1 'a'", "find all at most 0 'a'", "find all exactly 0 'a' 'b'"]]
     compile_check(ctx, "C08-edge-sources", lines, "bare")
     ctx.exhaustive = False
     # sensitivity of the lexer model
